@@ -10,7 +10,7 @@ use mclib::engine::{catch, finish, Ctx, Report, Tier};
 use mclib::scopes::*;
 use refmodel::gen::{self, ValDomain};
 use refmodel::ty::{Env, Prim, Ty, P};
-use refmodel::val::{has_type, has_type_liberal, Val};
+use refmodel::val::{has_type, has_type_liberal, has_type_liberal_ext, Val};
 use refmodel::wire::{self, Limits};
 use refmodel::{hash, sub};
 use serde_json::json;
@@ -225,7 +225,9 @@ pub fn near_misses(env: &Env, t: &Ty, v: &Val) -> Vec<Val> {
             root(Val::NatN(*b, (*n & 0x3f) as u64), &mut out);
             root(Val::int(*n & 0x3f), &mut out);
         }
-        (Val::F32(_), _) => root(Val::F64(0x3ff8000000000000), &mut out),
+        // (a float64 literal at float32 is a documented conversion of parser mode, not a near-miss)
+        (Val::F32(_), _) => root(Val::nat(1), &mut out),
+        (Val::F64(_), _) => root(Val::F32(0x3fc00000), &mut out),
         (Val::Bool(_), _) => {
             root(Val::NatN(8, 1), &mut out);
             root(Val::Null, &mut out);
@@ -308,7 +310,8 @@ fn check_near_miss(tr: &Triple, m: &Val, rep: &mut Report) {
     let renv: TypeEnv = bridge::to_real_env(&tr.env);
     let rt: Type = bridge::to_real_ty(&tr.t);
     let Ok(iv) = bridge::to_idl(m, false) else { return };
-    let want = has_type_liberal(&tr.env, m, &tr.t);
+    // typed encoding and parser-mode annotation convert a float64 literal to float32
+    let want = has_type_liberal_ext(&tr.env, m, &tr.t, true);
     rep.evaluations += 1;
     rep.transitions += 3;
     rep.traces_validated += 3;
